@@ -7,6 +7,9 @@ Case syntax (one line; parsers: harness/src/engines/threads.rs `parse_case`, lea
          row=<table>:<v>,<v>,…              committed initial row
          fill=<table>:<n>:<pad>             n more initial rows (1000+i, i, 'x'*pad), i = 1..n; the table must be (big, int, text)
          cache=<pages> pool=<workers> pace=<seed of the pacing (spins / yields / sleeps before every call)>
+         yield=<tag>:<permille>:<max_us>    delay of 1..max_us microseconds on <permille> of 1000 hits of the yield point <tag> inside the
+                                            database (axmosdb::verif::sched: snapshot_taken | commit_logged | committed | page_fetched |
+                                            tree_write | leaf_released); which hits, and how long, is a function of pace seed, tag, hit number
   op     begin | commit | rollback          the thread's own session (= one transaction at a time)
          <stmt>                             statement in the thread's open session          stmt as engine `hist`
          db <stmt>                          Database::execute (autocommit) issued by that thread
@@ -38,17 +41,23 @@ ENGINES = {
 
 PROP = {
     "engines": ["threads"],
-    "lean_modules": ["AxVerif.Model.Latch", "AxVerif.Lemmas.Latch", "AxVerif.Model.Coord", "AxVerif.Lemmas.Coord", "AxVerif.Model.Serial",
+    "lean_modules": ["AxVerif.Model.Latch", "AxVerif.Lemmas.Latch", "AxVerif.Model.Coord", "AxVerif.Lemmas.Coord", "AxVerif.Lemmas.NonInterf", "AxVerif.Model.Serial",
                      "AxVerif.Driver.Threads"],
     "rule": "one case = 2-8 client threads on one fresh database (own Session transactions and/or autocommit Database::execute calls; "
             "inserts, deletes, selects; UPDATE and the other known-finding features of C04 are kept out), started behind a barrier, paced "
-            "from the case's seed, every call under a watchdog (10 s bound) inside a supervised child process. Clean shapes (each 1/8 of the clean "
+            "from the case's seed, every call under a watchdog (10 s bound) inside a supervised child process. Clean shapes (each 1/14 of the clean "
             "cases): 2 autocommit writers on own tables; 2-3 writers + readers of static tables; 3-5 session writers + session readers; the "
             "same over tables preloaded to several pages (cache 10000 or 32-64); readers scanning the very tables being written (one-page "
             "and multi-page); begin/commit stress (2 session writers x 6-8 transactions, 2 fast autocommit committers, 3-4 readers of the "
             "session writers' tables); scans next to splits (one writer appends 100-160 rows to a multi-page table while 3 readers scan it); the preloaded shape with a "
-            "cache of 12-20 pages, below the working set (eviction while other threads pin frames). "
-            "Region shapes (4 % of quick, 8 % of thorough cases, spread among the clean ones): several writers on ONE table, a thread calling "
+            "cache of 12-20 pages, below the working set (eviction while other threads pin frames); 2-4 writers inserting into and deleting from "
+            "ONE table (judged for snapshot isolation; a serial order is demanded only of conflict-free cases); four shapes with delays at the "
+            "yield points inside the database: begin/commit stress with delays after the snapshot and around commit, scans next to splits with "
+            "delays between page fetch and latch / between leaves / between the tree operations of a statement, a table with a UNIQUE index "
+            "(point lookups and scans next to inserts, delays between table-tree, index-tree and catalog-tree update), first split of a "
+            "one-page table under scans; and the statement-level family: 3-6 threads issuing autocommit statements on tables of their own "
+            "with delays at every yield point, judged additionally against each thread's statements run ALONE (`bad not-alone`). "
+            "Region shapes (4 % of quick, 8 % of thorough cases, spread among the clean ones): a thread calling "
             "Database::flush, statements that panic in a pool worker. All derived from VERIF_SEED (the schedules "
             "themselves are the OS's). Non-trivial = every case (>= 2 threads, >= 30 events); distinct = distinct case line.",
     "assumptions": [
@@ -64,14 +73,19 @@ PROP = {
         "preloaded (larger cells / more big catalog rows run into the C10 finding KF-C10-divider-full-copy even single-threaded)",
     ],
     "partial": "PARTIAL BY DESIGN. (1) Schedules are OBSERVED, not enumerated: each case is one run under whatever interleaving the OS produced "
-               "(perturbed by seeded pacing outside the database; no yield points inside it). The check certifies every run that finished; it "
+               "(perturbed by seeded pacing outside the database and by seeded delays at six yield points inside it; the decisions are reproducible, the interleavings are not: there is no cooperative scheduler that owns the threads). The check certifies every run that finished; it "
                "cannot show that the scheduler never produces a bad interleaving. (2) The deadlock-freedom theorems are about an ABSTRACTION of "
                "the latch acquisition order (Model/Latch.lean: thread programs over the pager lock and page latches, shapes extracted by reading "
                "tree/bplustree.rs, tree/accessor.rs, runtime/ops/seq_scan.rs, io/pager.rs); they are not tied to the Rust by extraction or by a "
                "differential check, only by the runs (a deadlock would be observed as `hang`). Not modelled: index scans (a reader holding latches "
                "of two trees), overflow / free-list pages (latched only under the pager lock), VACUUM, DDL, and `Database::flush` (modelled only "
-               "for its witness). (3) `serial_of_conflict_free_statement` (SI-accepted + conflict-free => serial) is stated, not proved: the judge "
-               "decides serial equivalence per run with the verified checker `checkSerial` instead. (4) The linearisation search is bounded; "
+               "for its witness). (3) `serial_of_conflict_free_statement` (SI-accepted + conflict-free => accepted by checkSerial, a statement "
+               "about the search) is stated, not proved: the judge decides serial equivalence per run with the verified checker `checkSerial`. "
+               "What IS proved at statement level (Lemmas/NonInterf.lean, over the Db model): in histories of autocommit SELECT / INSERT / "
+               "DELETE statements, statements on other tables do not interfere (any catalog, constraints included), and, for catalogs "
+               "without constraints, the position of a statement does not matter and two adjacent statements on different tables commute "
+               "(same answers, same rows per table in either order). Not covered: UPDATE, sessions (multi-statement transactions), "
+               "statements with disjoint ROW footprints inside one table. (4) The linearisation search is bounded; "
                "soundness of acceptance does not depend on it, completeness does.",
     "trusted": [
         "engine `threads`: ticket counter, per-call watchdog, panic hook, canonical rendering of results",
@@ -87,20 +101,21 @@ TEXT = {
             "both sides go through the root latch); plus reachable-deadlock witnesses for the two real defects found (a scan re-latching a one-page "
             "table behind a parked writer - repaired; Database::flush latching pages under the pager lock - listed); a model of "
             "TransactionCoordinator::begin with the theorem that an atomic begin only ever counts committed transactions as committed, and the "
-            "witness of the shipped three-step begin (dirty read - repaired). (b) A verified checker for "
+            "witness of the shipped three-step begin (dirty read - repaired); statement-level non-interference and commutation of autocommit "
+            "statements on different tables, proved over the Db model. (b) A verified checker for "
             "multi-threaded observations: checkSerialSI_sound / checkSerial_sound - an accepted observation has a linearisation (thread order and "
             "ticket order kept) on which the MVCC model of C04 gives every observed answer and the observed final contents, and is equivalent to "
-            "a serial execution of its transactions. (c) Tie: ~340 (quick) / ~5 200 (thorough) runs of 2-8 real client threads against the real "
+            "a serial execution of its transactions. (c) Tie: ~570 (quick) / ~8 600 (thorough) runs of 2-8 real client threads against the real "
             "database per check, each under a watchdog, each judged by the checker.",
     "design_ref": "DESIGN.md §5 C14",
-    "note": "Schedules are observed, not enumerated; the latch theorems are about an abstraction of the acquisition order read off the code. Two "
+    "note": "Schedules are observed, not enumerated; the latch theorems are about an abstraction of the acquisition order read off the code. Three "
             "defects were repaired (fix: commits): page read latches were not re-entrant although scans latch a page through two accessors "
             "(deadlock with any concurrent writer of a one-page table, ~15 % of same-table runs); TransactionCoordinator::begin was not atomic "
-            "(a snapshot taken between id allocation and registration of another transaction read its uncommitted rows, ~6 % of stress runs). "
+            "(a snapshot taken between id allocation and registration of another transaction read its uncommitted rows, ~6 % of stress runs); "
+            "concurrent inserts into one table were handed the same row id and lost rows (~35 % of same-table-writer runs). "
             "Two further defects seen here were repaired by other properties' fixes now on main (C12's eviction sweep: small caches under "
-            "concurrency; C16's catch_unwind: a panicking statement no longer kills its pool worker). Three findings are listed with region "
-            "attribution: concurrent inserts into one table lose rows (row id read-modify-write through the catalog), Database::flush deadlocks "
-            "with writers, IN (SELECT ...) panics in the evaluator (C16's finding; attributed only while no call hangs). Inside those regions the "
+            "concurrency; C16's catch_unwind: a panicking statement no longer kills its pool worker). Two findings are listed with region "
+            "attribution: Database::flush deadlocks with writers, IN (SELECT ...) panics in the evaluator (C16's finding; attributed only while no call hangs). Inside those regions the "
             "verdict is weaker.",
     "technique": "Lean 4 deadlock-freedom proofs over a latch transition system + verified history checker (snapshot isolation / serial order) "
                  "applied to observations of real multi-threaded runs",
